@@ -241,3 +241,80 @@ contract('gnpy.core.network.add_fiber_padding', name='gnpy.core.network.add_fibe
                   # the loss the amplifier design will compensate is the span's actual loss
                   ('design_span_loss_is_the_actual_loss', 'fiber.design_span_loss == actual')],
          modifies=['network.ghost_first.params._att_in', ('fiber.design_span_loss', real())])
+
+# ---------------------------------------------------------------- C10: permitted set (restrictions precedence, band)
+def LIBE(**kw):
+    d = dict(type_def=const('variable_gain'), f_min=real(), f_max=real(), allowed_for_design=boolean())
+    d.update(kw)
+    return obj('<ns>', **d)
+
+
+EQ_LIB = dct(Edfa=dct(A=LIBE(), B=LIBE(), M=LIBE(type_def=const('multi_band'))))
+BANDS = dct(CBAND=dct(f_min=real(), f_max=real()))
+SPEC_RESTR = '''
+def COVERS(a, band):
+    return a.f_min <= band['f_min'] and a.f_max >= band['f_max']
+'''
+for _case, _node, _prev, _next, _perm in (
+        ('own variety list', dict(variety_list=const(['A'])), obj('Fiber'), obj('Fiber'), "x == 'A'"),
+        ('booster restriction of the previous ROADM', dict(variety_list=const(None)),
+         obj('Roadm', restrictions=dct(booster_variety_list=const(['B']), preamp_variety_list=const([]))), obj('Fiber'), "x == 'B'"),
+        ('preamp restriction of the next ROADM', dict(variety_list=const([])), obj('Fiber'),
+         obj('Roadm', restrictions=dct(booster_variety_list=const([]), preamp_variety_list=const(['A']))), "x == 'A'"),
+        ('models allowed for design', dict(variety_list=const(None)), obj('Fiber'), obj('Fiber'),
+         "equipment['Edfa'][x].allowed_for_design")):
+    contract('gnpy.core.network.get_node_restrictions', name=f'gnpy.core.network.get_node_restrictions[{_case}]', props=['C10'],
+             params={'node': obj('Edfa', params=obj('<ns>', type_variety=const('')), **_node), 'prev_node': _prev,
+                     'next_node': _next, 'equipment': EQ_LIB, '_design_bands': BANDS}, spec=SPEC_RESTR,
+             let={'band': "_design_bands['CBAND']"},
+             ensures=[(f'member_{k}', f"iff('{k}' in result, " +
+                       _perm.replace('x', f"'{k}'") + f" and COVERS(equipment['Edfa']['{k}'], band))") for k in 'AB'] +
+                     [('no_multiband_model', "'M' not in result")],
+             use_at_calls=False, modifies=[])
+contract('gnpy.core.network.get_node_restrictions', name='gnpy.core.network.get_node_restrictions[operator-chosen model]', props=['C10'],
+         params={'node': obj('Edfa', params=obj('<ns>', type_variety=const('B')), variety_list=const(['A'])), 'prev_node': obj('Fiber'),
+                 'next_node': obj('Fiber'), 'equipment': EQ_LIB, '_design_bands': BANDS},
+         ensures=[('only_that_model', "result == ['B']")], use_at_calls=False, modifies=[])
+
+# ---------------------------------------------------------------- set_one_amplifier, automatic selection (C10 Raman gate)
+# call-site summary of select_edfa: the clauses chosen_is_permitted / raman_only_if_allowed proved above for a
+# three-model library, stated over the keys of whatever dict is passed
+contract('gnpy.core.network.select_edfa', name='gnpy.core.network.select_edfa[call-site summary]', props=[],
+         trusted=True,
+         params={'raman_allowed': boolean(), 'gain_target': real(), 'power_target': real(), 'edfa_eqpt': dct(),
+                 'uid': string(), 'target_extended_gain': real(), 'verbose': boolean()},
+         raises={'ConfigurationError': None},
+         ensures=[('chosen_is_permitted', 'result[0] in edfa_eqpt'),
+                  ('raman_only_if_allowed', 'implies(edfa_eqpt[result[0]].raman, raman_allowed)'),
+                  ('reduction_nonpositive', 'result[1] <= 0')],
+         returns=tup(string(), real()),
+         note='summary of select_edfa for call sites; its clauses are those proved on three-model libraries')
+
+LIB_N = obj('<ns>', p_max=real(), gain_flatmax=real(), gain_min=real(), raman=const(False), type_def=const('variable_gain'),
+            type_variety=const('N'))
+LIB_R = obj('<ns>', p_max=real(), gain_flatmax=real(), gain_min=real(), raman=const(True), type_def=const('variable_gain'),
+            type_variety=const('R'))
+AMP_AUTO = extend(AMPN, params=obj('EdfaParams', p_max=real(), gain_flatmax=real(), gain_min=real(), out_voa_auto=boolean(),
+                                  type_variety=const(''), raman=boolean()))
+SPAN_R = SPAN
+for _pv, _prev in (('fibre', obj('Fiber', params=obj('FiberParams', _loss_coef=vec('nl')))), ('not a fibre', obj('Fused'))):
+    contract('gnpy.core.network.set_one_amplifier', name=f'gnpy.core.network.set_one_amplifier[automatic selection, previous node: {_pv}]',
+             props=['C10', 'C08'],
+             params={'node': AMP_AUTO, 'prev_node': _prev, 'next_node': obj('Fiber'), 'power_mode': const(True),
+                     'prev_voa': real(), 'prev_dp': real(), 'pref_ch_db': real(), 'pref_total_db': real(),
+                     'network': obj('<ns>'), 'restrictions': lst(),
+                     'equipment': dct(Span=dct(default=SPAN), Edfa=dct(N=LIB_N, R=LIB_R)), 'verbose': const(False),
+                     'deviation_db': real(), 'tilt_target': real()}, spec=SPEC_NET,
+             let={'sp': "equipment['Span']['default']"},
+             requires=[('step', 'round(sp.delta_power_range_db[2], 1) >= 0.01 and round(sp.voa_step, 1) >= 0.01'),
+                       ('range', 'sp.delta_power_range_db[0] <= sp.delta_power_range_db[1]')],
+             raises={'ConfigurationError': None},
+             ensures=[('model_from_library', "node.params.type_variety == 'N' or node.params.type_variety == 'R'"),
+                      ('complete', 'node.effective_gain is not None and node.out_voa is not None and node.delta_p is not None'),
+                      # a Raman model only after a fibre whose loss coefficient is below the limit at every frequency
+                      ('raman_gate', "implies(node.params.type_variety == 'R', " +
+                       ('forall(lambda i: prev_node.params._loss_coef[i] < sp.max_fiber_lineic_loss_for_raman * 1e-3, len(prev_node.params._loss_coef))'
+                        if _pv == 'fibre' else 'False') + ')')],
+             modifies=['node.delta_p', 'node.effective_gain', 'node.tilt_target', 'node.out_voa', 'node.in_voa', 'node._delta_p',
+                       'node.target_pch_out_dbm', 'node.type_variety', 'node.params.*'],
+             use_at_calls=False, max_paths=3000)
